@@ -117,6 +117,8 @@ type interpreter struct {
 	callDepth    int
 	regexps      map[*value]*regexp.Regexp
 	initFnDone   map[*ssa.Function]bool
+	hashes       []hashEntry
+	hashN        int
 	phaseADepth  int
 	pendingInits []pendingInit
 }
